@@ -91,7 +91,7 @@ theorem fitX_eq_zfit (p k : ℕ) (B : ℕ → ℕ → K) (opd : ℕ → K)
 theorem composeX_eq_zcompose (p k : ℕ) (B : ℕ → ℕ → K) (c : ℕ → K) :
     (fun s : Fin p => composeX k B c s) = zcompose (blockOf p k B) (fun a : Fin k => c a) := by
   ext s
-  simp only [composeX, zcompose, sumRange_fin, Matrix.mulVec, dotProduct, blockOf, Matrix.of_apply]
+  simp only [composeX, Gen.removeContract, zcompose, sumRange_fin, Matrix.mulVec, dotProduct, blockOf, Matrix.of_apply]
 
 theorem removeX_eq_zremove (p k : ℕ) (B : ℕ → ℕ → K) (opd : ℕ → K)
     (h : IsUnit ((blockOf p k B)ᵀ * blockOf p k B).det) :
@@ -122,7 +122,7 @@ theorem composeFull_positions (sqrtN : ℕ → K) (cos sin : K → K) (k L : ℕ
     composeFullX sqrtN cos sin (fun i => (Gen.composeNoll i).toNat) L
         (fun i => ∑ a ∈ range k, if modes a = i + 1 then c a else 0) normalize rho theta mask s
       = composeX k (zBasisX sqrtN cos sin modes normalize rho theta mask) c s := by
-  unfold composeFullX composeX zBasisX
+  unfold composeFullX composeX Gen.removeContract zBasisX
   simp only [sumRange_eq_sum]
   have hn : ∀ i : ℕ, (Gen.composeNoll (i : ℤ)).toNat = i + 1 := by intro i; simp [Gen.composeNoll]
   simp only [hn, Finset.sum_mul]
@@ -194,7 +194,7 @@ theorem remove_outside_mask {F : Type} [Field F] (sqrtN : ℕ → F) (cos sin : 
          = fitX p k (zBasisX sqrtN cos sin modes normalize rho theta mask) opd' a) := by
   constructor
   · intro s hs
-    unfold removeX composeX
+    unfold removeX composeX Gen.removeContract
     simp only [zBasisX_outside _ _ _ _ _ _ _ _ s _ hs, zero_mul, sumRange_eq_sum, Finset.sum_const_zero, sub_zero]
   · intro hag a
     unfold fitX
